@@ -1,4 +1,6 @@
+pub mod c01;
 pub mod c02;
 pub mod c03;
 pub mod c15;
 pub mod spaces;
+pub mod triples;
